@@ -148,7 +148,6 @@ impl CloseCtx {
 //@ within pub(crate) trait Close<'info, A>: Authenticate<'info> where A: Action + ZeroCopy + Owner + Closable,
 //@ fn preprocess
 //@ sig fn preprocess(&self) -> Result<IsCallerOwner>
-//@ sub err!\(E::Other\) => Err(E::Other)
     pub fn preprocess(&self) -> (r: Result<bool, E>)
         ensures
             // the result says whether the caller is the owner
